@@ -362,8 +362,8 @@ func c19Check(env *core.Env, ci any) (res core.Result) {
 	}
 	res.Labels = append(res.Labels, "kind:"+c.Kind, "target:"+c.Target)
 	dir := env.NextDir()
-	bo := c19Compile(env, filepath.Join(dir, "base"), c.Base, c.Target)
-	vo := c19Compile(env, filepath.Join(dir, "variant"), c.Variant, c.Target)
+	bo := c19Compile(env, filepath.Join(dir, "base", "p"), c.Base, c.Target) // same module name on both sides
+	vo := c19Compile(env, filepath.Join(dir, "variant", "p"), c.Variant, c.Target)
 	if bo.r.TimedOut || bo.r.Crash != "" || vo.r.TimedOut || vo.r.Crash != "" {
 		if (bo.r.Crash != "") != (vo.r.Crash != "") || bo.r.TimedOut != vo.r.TimedOut {
 			res.Labels = append(res.Labels, "crash_on_one_side_only")
